@@ -41,12 +41,22 @@ class Contract:
     def lookup_spec(self, name):
         return self.registry.specs.get(name)
 
-    def make_self(self, ex, st, facts):
+    def make_self(self, ex, st, facts, fields_spec=None, cls=None, name="self"):
+        """A symbolic instance: fields as declared by the sidecar (self_fields); a field of type
+        'obj[pkg.mod:Class]' is a nested instance whose fields come from that class's contracts."""
         from .values import Opaque, fresh, parse_type
         fields = {}
-        for k, ty in (self.self_fields or {}).items():
-            fields[k] = fresh(parse_type(ty), "self_" + k, (), facts)
-        return Opaque("self", **fields)
+        spec = self.self_fields if fields_spec is None else fields_spec
+        for k, ty in (spec or {}).items():
+            if isinstance(ty, str) and ty.startswith("obj["):
+                target = ty[4:-1]
+                sub = self.registry.class_fields(target)
+                fields[k] = self.make_self(ex, st, facts, sub, target, name + "_" + k)
+            else:
+                fields[k] = fresh(parse_type(ty), name + "_" + k, (), facts)
+        if cls is None:
+            cls = "%s:%s" % (ex.module.modname, ex.cls)
+        return Opaque("self", __class__=cls, **fields)
 
 
 class Registry:
@@ -55,6 +65,14 @@ class Registry:
         self.specs = {}
         self.lemmas = {}
         self.files = []
+
+    def class_fields(self, cls_target):
+        """Declared fields of pkg.mod:Class = the self_fields of any of its method contracts."""
+        out = {}
+        for t, c in self.contracts.items():
+            if t.startswith(cls_target + ".") and c.self_fields:
+                out.update(c.self_fields)
+        return out
 
     def load_dir(self, d):
         for fn in sorted(os.listdir(d)):
@@ -67,6 +85,13 @@ class Registry:
             src = f.read()
         tree = ast.parse(src, path)
         self.files.append(path)
+        self._consts = {}
+        for node in tree.body:
+            if isinstance(node, ast.Assign) and len(node.targets) == 1 and isinstance(node.targets[0], ast.Name):
+                try:
+                    self._consts[node.targets[0].id] = ast.literal_eval(node.value)
+                except Exception:
+                    pass
         for node in tree.body:
             if not isinstance(node, ast.FunctionDef):
                 continue
@@ -88,8 +113,15 @@ class Registry:
         if dec is not None:
             if dec.args:
                 target = ast.literal_eval(dec.args[0])
+            consts = getattr(self, "_consts", {})
+
+            class Sub(ast.NodeTransformer):
+                def visit_Name(self, n):
+                    if n.id in consts:
+                        return ast.copy_location(ast.Constant(consts[n.id]), n)
+                    return n
             for k in dec.keywords:
-                kw[k.arg] = ast.literal_eval(k.value)
+                kw[k.arg] = ast.literal_eval(Sub().visit(k.value))
         if lemma:
             target = "lemma:" + node.name
         c = Contract(target, node, self, path)
